@@ -118,7 +118,8 @@ impl Prop for C14 {
             let pos = rng.usize(inst.removed.len() + 1);
             inst.removed.insert(pos, exact::RemovedSpec { constraint: None, reason: "orphan".into(), parameters: vec![] });
         }
-        let n = 1 + rng.usize(8);
+        // mostly the statement's <= 8 operations; now and then a long history
+        let n = if rng.chance(1, 30) { 9 + rng.usize(32) } else { 1 + rng.usize(8) };
         let mut ops = vec![];
         // track the expected lists so that IDs can be drawn from active, removed and unknown on purpose
         let mut active: Vec<u64> = inst.constraints.iter().map(|c| c.id).collect();
